@@ -618,3 +618,11 @@ CHECKS["C07"]["text"] += (
 CHECKS["C13"]["text"] += (
     " Laser corruptions: a wrong laser count and a counted laser without "
     "its power key.")
+CHECKS["C06"]["text"] += (
+    " The documented precedence of the Young's modulus scenarios is an "
+    "oracle of its own (AncillarySpec.Scenario): in every observed state "
+    "emodulus must be available exactly for scenarios A/B/C and equal the "
+    "value get_emodulus gives for that scenario's inputs.")
+CHECKS["C12"]["text"] += (
+    " Bin widths (Doane, percentile) and the default kde spacing must not "
+    "depend on invalid values among the selected events.")
